@@ -73,6 +73,23 @@ func genC06(t *rapid.T) any {
 				}
 				rule := C06Rule{Sub: sub, Req: k, Restart: r}
 				rule.Action = rapid.SampledFrom(c06Actions[sub]).Draw(t, "action")
+				if rapid.IntRange(0, 11).Draw(t, "undocumented") == 0 {
+					// an action the subroutine reference does not list for this subroutine: no documented
+					// successor exists, the path must end here in a reported error
+					var und []string
+					for _, a := range []string{"lookup", "pass", "error", "hash", "deliver", "fetch", "hit_for_pass"} {
+						doc := false
+						for _, d := range c06Actions[sub] {
+							if d == "return:"+a {
+								doc = true
+							}
+						}
+						if !doc {
+							und = append(und, "return:"+a)
+						}
+					}
+					rule.Action = rapid.SampledFrom(und).Draw(t, "undocaction")
+				}
 				if sub == "vcl_fetch" {
 					rule.Cache = rapid.SampledFrom([]string{"", "", "ttl1h", "ttl0", "uncacheable"}).Draw(t, "cache")
 				}
@@ -151,7 +168,10 @@ func c06Next(sub, action string, afterHash func() string) string {
 			return "vcl_error"
 		}
 	case "vcl_hash":
-		return afterHash()
+		switch act {
+		case "", "hash":
+			return afterHash()
+		}
 	case "vcl_hit":
 		switch act {
 		case "", "deliver":
@@ -185,11 +205,20 @@ func c06Next(sub, action string, afterHash func() string) string {
 			return "vcl_error"
 		}
 	case "vcl_error":
-		return "vcl_deliver"
+		switch act {
+		case "", "deliver":
+			return "vcl_deliver"
+		}
 	case "vcl_deliver":
-		return "vcl_log"
+		switch act {
+		case "", "deliver":
+			return "vcl_log"
+		}
 	case "vcl_log":
-		return "end"
+		switch act {
+		case "", "deliver":
+			return "end"
+		}
 	}
 	return "?"
 }
@@ -421,8 +450,19 @@ func checkC06(raw json.RawMessage) iso.Result {
 				passPath = true
 			}
 			if next == "?" {
-				col.Failf("harness: reference machine has no successor for %s/%s", state, action)
-				return col.Done()
+				if !strings.HasPrefix(action, "return:") {
+					col.Failf("harness: reference machine has no successor for %s/%s", state, action)
+					return col.Done()
+				}
+				// undocumented action: there is no documented successor, so no further lifecycle
+				// subroutine may run. Unless this is vcl_log itself, vcl_log has then not run, which
+				// is only allowed for a request that ends in a reported error.
+				col.Label("undocumented-action")
+				col.Res.NonTrivial = true
+				if state != "vcl_log" {
+					expectErrorEnd = true
+				}
+				break
 			}
 			if next != "vcl_hash" && !(state == "vcl_recv" && action == "") && action != "" {
 				col.Res.NonTrivial = true
@@ -465,7 +505,12 @@ func checkC06(raw json.RawMessage) iso.Result {
 				col.Failf("vcl_log must run last and exactly once (ran %d times)\n%s", nlog, ctx())
 			}
 			// cached / X-Cache name the branch taken (only when exactly one lookup happened and nothing passed)
-			if lookups == 1 && !passPath && rep.Error == "" {
+			// (also after vcl_hit / vcl_miss returned pass: the lookup still took that branch;
+			// only requests passed in vcl_recv have no lookup at all)
+			if lookups == 1 && recvDecision != "pass" && rep.Error == "" {
+				if passPath {
+					col.Label("checked:cached+x-cache-after-pass")
+				}
 				hit := lastBranch == "vcl_hit"
 				if rep.Cached != hit {
 					col.FailKey("sim.cached-flag", "cached=%v but the lookup took the %s branch\n%s", rep.Cached, lastBranch, ctx())
